@@ -17,6 +17,7 @@ import SwcVerif.Model.Features
 import SwcVerif.Model.AlgoRunDsu
 import SwcVerif.Model.AlgoRunTraverse
 import SwcVerif.Model.AlgoRunTravFront
+import SwcVerif.Model.AlgoRunVolume
 import SwcVerif.Model.AlgoRunSort
 import SwcVerif.Model.AlgoRunSubtree
 import SwcVerif.Model.AlgoRunPopulation
@@ -70,6 +71,7 @@ def dispatch (op : String) (args : List String) : String :=
   | "gbranches" | "gpaths" | "gfurcs" => AlgoRun.handleBranches op args
   | "gtrav" => AlgoRun.handleTrav args
   | "gtravfront" => AlgoRun.handleTravFront args
+  | "gvoltree" => AlgoRun.handleVolTree args
   | "gsort" => AlgoRun.handleSort args
   | "gsubtopo" => AlgoRun.handleSubTopo args
   | "gsubtree" => AlgoRun.handleSubtree args
